@@ -74,7 +74,7 @@ class LiborSDEFunction(SDEFunction):
         m, d = sigma.shape
         super().__init__(m=m, d=d)
         self._sigma = sigma
-        self.tenors = tenors
+        self.tenors = np.asarray(tenors, dtype=float)  # (a list of tenors is accepted)
 
     def sigma(self, t: float):
         """The sigma coefficient corresponding to the Libor with tenor T is zero for t >= T (the Libor rate fixes at T)
@@ -103,7 +103,7 @@ class ForwardMarketSDEFunction(SDEFunction):
         m, d = sigma.shape
         super().__init__(m=m, d=d)
         self._sigma = sigma
-        self.tenors = tenors
+        self.tenors = np.asarray(tenors, dtype=float)  # (a list of tenors is accepted)
 
     def sigma(self, t: float):
         """The sigma coefficient corresponding to the OIS term rate for the period [Ti, Ti+1]. It is 0 for t >= Ti+1 and
@@ -114,10 +114,13 @@ class ForwardMarketSDEFunction(SDEFunction):
             return self._sigma
         else:
             res = self._sigma.copy()
+            # g_i = (T_{i+1} - t) / (T_{i+1} - T_i) clipped to [0, 1] scales the row of the i-th rate
             g = np.minimum(
-                1, np.maximum(0, self.tenors - t) / (self.tenors[1:] - self.tenors[:-1])
+                1,
+                np.maximum(0, self.tenors[1:] - t)
+                / (self.tenors[1:] - self.tenors[:-1]),
             )
-            res = res * np.diag(g)
+            res = res * g[:, np.newaxis]
             return res
 
     def __call__(self, t: float, x: np.array) -> np.array:
